@@ -242,6 +242,10 @@ func NewCalculator(
 			totalWeight += weight
 		}
 		averageWeight = totalWeight / float64(len(weights))
+		if averageWeight == 0 || math.IsNaN(averageWeight) || math.IsInf(averageWeight, 0) {
+			return nil, fmt.Errorf("gaussian: the weights %v have no usable mean (%g): each window is scaled by its weight divided by the mean",
+				weights, averageWeight)
+		}
 	}
 
 	// account for large standard deviations or peaks beyond the window
